@@ -8,6 +8,7 @@ C05 line-protocol driver.   One case = one line of three fields:
   set      M matcher^M                  (at most one matcher of each kind, as in a JSON object)
   matcher  a F V val^V                  real method(0)/host(1)/path(2)/header(3) matcher, V ≥ 1 exact values
          | e K ST                       error matcher, kind K ∈ {0,1,2}, status ST (0 or 400..599)
+         | l B                          legacy RequestMatcher answering B ∈ {0,1}
          | n S set^S                    not
   handler  p ID | r ID ST | w ID PATH | f ID ST | s routes E [routes]     (E = 1: error routes follow)
   errors   `-` (Server.Errors == nil) or a route list
@@ -62,6 +63,9 @@ partial def pMatcher : P Matcher
     let (k, toks) ← pNat toks
     let (st, toks) ← pNat toks
     pure (.err k st, toks)
+  | "l" :: toks => do
+    let (b, toks) ← pNat toks
+    if b > 1 then none else pure (.legacy (b == 1), toks)
   | "n" :: toks => do
     let (s, toks) ← pNat toks
     let (sets, toks) ← pMany pSet s toks
@@ -139,6 +143,8 @@ def kindKey : Matcher → Nat
   | .atom .header _ => 3
   | .err k _ => 4 + k
   | .not _ => 7
+  | .legacy false => 8
+  | .legacy true => 9
 
 def distinct : List Nat → Bool
   | [] => true
@@ -148,6 +154,7 @@ mutual
 def mValid : Matcher → Bool
   | .atom f vals => atomOk f vals
   | .err k st => k < 3 && errStatusOk st
+  | .legacy _ => true
   | .not sets => setsValid sets
 def setsValid : List (List Matcher) → Bool
   | [] => true
@@ -214,6 +221,7 @@ mutual
 def encMatcher : Matcher → List String
   | .atom f vals => ["a", toString (fieldNo f), toString vals.length] ++ vals.map toString
   | .err k st => ["e", toString k, toString st]
+  | .legacy b => ["l", if b then "1" else "0"]
   | .not sets => ["n", toString sets.length] ++ encSets sets
 def encSets : List (List Matcher) → List String
   | [] => []
